@@ -37,6 +37,30 @@ type gate struct {
 	post    []string
 	parked  chan struct{}
 	unblock chan struct{}
+	// second, label-triggered parking point (three-thread scenario): the first call with this label parks
+	parkLabel string
+	fired2    bool
+	parked2   chan struct{}
+	unblock2  chan struct{}
+}
+
+func (g *gate) armLabel(label string) {
+	g.mu.Lock()
+	g.parkLabel, g.fired2 = label, false
+	g.parked2, g.unblock2 = make(chan struct{}), make(chan struct{})
+	g.mu.Unlock()
+}
+
+func (g *gate) release2() {
+	g.mu.Lock()
+	if g.unblock2 != nil {
+		select {
+		case <-g.unblock2:
+		default:
+			close(g.unblock2)
+		}
+	}
+	g.mu.Unlock()
 }
 
 func (g *gate) arm(k int) {
@@ -85,6 +109,14 @@ func (g *gate) hit(label string) {
 	g.mu.Lock()
 	if !g.armed || bgCall() {
 		g.mu.Unlock()
+		return
+	}
+	if g.parkLabel != "" && label == g.parkLabel && !g.fired2 {
+		g.fired2 = true
+		close(g.parked2)
+		ch := g.unblock2
+		g.mu.Unlock()
+		<-ch
 		return
 	}
 	if g.fired {
